@@ -1,3 +1,4 @@
+import os
 import socket
 import struct
 import threading
@@ -365,8 +366,9 @@ class WebSocket:
         frame: ABNF frame
             frame data created by ABNF.create_frame
         """
-        if self.get_mask_key:
-            frame.get_mask_key = self.get_mask_key
+        # the key comes from this connection's source, whatever an earlier
+        # send of the same frame object on another connection left behind
+        frame.get_mask_key = self.get_mask_key if self.get_mask_key else os.urandom
         data = frame.format()
         length = len(data)
         if isEnabledForTrace():
